@@ -426,6 +426,12 @@ fn verif_replay() {
                 break;
             }
         };
+        if let Some(exp) = op["expect"].as_str() {
+            // the check that produced this replay expects this outcome of the real call (e.g. a stale commit is refused)
+            if !result.starts_with(exp) {
+                println!("VERIF-REPLAY: violated {} expected {} got {} [step {} {}]", op["violation_key"].as_str().unwrap_or("C07/unexpected-result"), exp, result, step, op["op"]);
+            }
+        }
         if has("unchanged-on-error") && result.starts_with("Err") {
             let same = serde_json::to_value(&pre.clusters).ok() == serde_json::to_value(&store.clusters).ok()
                 && serde_json::to_value(&pre.all_proxies).ok() == serde_json::to_value(&store.all_proxies).ok()
